@@ -33,11 +33,21 @@ namespace MpVerif.C09
 
 /-- The environment: what each abstract stage does when it is reached. Any list is allowed (several
 entries, entries for stages never reached, duplicates): `look` takes the first entry for a stage. -/
-abbrev Behaviours := List (Stage × Raise)
+inductive Beh where
+  /-- the stage throws an exception built in this way -/
+  | raises (r : Raise)
+  /-- the stage kills the process (SIGSEGV / SIGABRT / sanitizer abort / OOM kill): not an exception, no catch
+      clause runs -/
+  | aborts
+  /-- the stage does not return -/
+  | hangs
+deriving Repr, DecidableEq
 
-def look : Behaviours → Stage → Option Raise
+abbrev Behaviours := List (Stage × Beh)
+
+def look : Behaviours → Stage → Option Beh
   | [], _ => none
-  | (s, r) :: bs, st => if s = st then some r else look bs st
+  | (s, b) :: bs, st => if s = st then some b else look bs st
 
 /-- The driver state the outcome depends on. -/
 structure PState where
@@ -64,11 +74,15 @@ inductive Step where
   | exportOnly
   /-- `ReportSolution2AMPL` → `HandleSolution` with the solver's answer -/
   | write
+  /-- `s.Run(argv)` in `RunBackendApp`: from here on `BackendApp::Run`'s catch clauses apply -/
+  | enterRun
+  /-- `MakeProperSolutionHandler` (first statement of the lambda `ReadNLModel` passes on as `after_header`) -/
+  | mkHandler
 deriving Repr, DecidableEq
 
 /-- The real driver's sequence. -/
 def pipeline : List Step :=
-  [.env .ctor, .env .init, .flags, .env .openNL, .env .header, .parseOpts, .env .options, .objno,
+  [.env .ctor, .enterRun, .env .init, .flags, .env .openNL, .env .header, .mkHandler, .parseOpts, .env .options, .objno,
    .env .populate, .env .body, .env .names, .env .convert, .env .extras, .exportOnly,
    .env .solve, .env .report, .env .suffixes, .write]
 
@@ -88,8 +102,6 @@ deriving Repr
 /-- What completing an abstract stage changes in the state. -/
 def afterStage (sc : Scenario) (s : Stage) (st : PState) : PState :=
   match s with
-  | .ctor => { st with inRun := true }              -- `s.Run(argv)`: the try block of Run is entered
-  | .header => { st with handler := true }          -- OnHeader's lambda: MakeProperSolutionHandler
   | .populate => { st with dims := sc.dims }        -- NLProblemBuilder::OnHeader done
   | _ => st
 
@@ -104,7 +116,9 @@ def step (sc : Scenario) (bs : Behaviours) (p : Step) (st : PState) : Ctl :=
   | .env s =>
     match look bs s with
     | none => .next (afterStage sc s st)
-    | some r =>
+    | some .aborts => .done .crash
+    | some .hangs => .done .hang
+    | some (.raises r) =>
       -- StdBackend::ReportSuffixes: try { … } catch (const std::exception&) { AddWarning }
       if s = .suffixes ∧ r ≠ .foreign then .next st
       else .done (onRaise sc (duringStage sc s st) r)
@@ -121,6 +135,8 @@ def step (sc : Scenario) (bs : Behaviours) (p : Step) (st : PState) : Ctl :=
     | (w, none) => .next { st with wantsol := w }
   | .objno => if sc.objnoTooBig then .done (onRaise sc st .optionError) else .next st
   | .exportOnly => if sc.justExport then .done .silent else .next st
+  | .enterRun => .next { st with inRun := true }
+  | .mkHandler => .next { st with handler := true }
   | .write =>
     let f : SolFile := { code := sc.answer.code, ncons := st.dims.ncons,
                          nduals := if sc.answer.haveDual then st.dims.ncons else 0,
@@ -140,9 +156,21 @@ def foldSteps (sc : Scenario) (bs : Behaviours) : List Step → PState → Outco
 /-- **The driver**: the real pipeline from the initial state. -/
 def runP (sc : Scenario) (bs : Behaviours) : Outcome := foldSteps sc bs pipeline PState.init
 
-/-- the first stage, in execution order, for which the environment raises — with what -/
-def firstFault (bs : Behaviours) : Option (Stage × Raise) :=
+/-- the first stage, in execution order, at which the environment does something else than completing -/
+def firstBeh (bs : Behaviours) : Option (Stage × Beh) :=
   [Stage.ctor, .init, .openNL, .header, .options, .populate, .body, .names, .convert, .extras, .solve, .report, .suffixes].findSome?
-    (fun s => (look bs s).map (fun r => (s, r)))
+    (fun s => (look bs s).map (fun b => (s, b)))
+
+/-- …as an exception, if it is one (what the table `Scenario.fault` can express) -/
+def firstFault (bs : Behaviours) : Option (Stage × Raise) :=
+  match firstBeh bs with
+  | some (s, .raises r) => some (s, r)
+  | _ => none
+
+/-- an environment of exceptions only -/
+def Behaviours.ofRaises (l : List (Stage × Raise)) : Behaviours := l.map (fun p => (p.1, Beh.raises p.2))
+
+/-- no stage aborts or hangs -/
+def Behaviours.exceptionsOnly (bs : Behaviours) : Bool := bs.all (fun p => match p.2 with | .raises _ => true | _ => false)
 
 end MpVerif.C09
